@@ -89,6 +89,7 @@ def probes():
         from .c17 import F08_SNIPPETS
 
         f08 = []
+        _PROBES["f08_names"] = sorted(F08_SNIPPETS)
         for name in sorted(F08_SNIPPETS):
             kind, text = F08_SNIPPETS[name]
             if kind == "unit":
@@ -236,12 +237,13 @@ def worker_finish():
 
 # ----------------------------------------------------------------- cases
 ALPHABET = [("create", "f2003"), ("create", "f2008"), ("parse", "valid", 0), ("parse", "valid", 4), ("parse", "valid", 6),
-            ("parse", "invalid", 0), ("parse", "invalid", 1), ("parse", "invalid", 2), ("parse", "f08", 11),
-            ("parse", "f08", 1)]
+            ("parse", "invalid", 0), ("parse", "invalid", 1), ("parse", "invalid", 2), ("parse", "f08", 16),
+            ("parse", "f08", 5)]
 FINALS = [("f2003", "valid", 0, {}), ("f2003", "valid", 1, {}), ("f2008", "valid", 4, {}), ("f2003", "valid", 3, {}),
           ("f2003", "invalid", 4, {}), ("f2003", "valid", 5, {}), ("f2008", "valid", 6, {"ignore_comments": False}),
-          ("f2003", "f08", 11, {}), ("f2003", "f08", 1, {}), ("f2008", "f08", 11, {}), ("f2003", "f08", 6, {}),
-          ("f2003", "f08", 0, {}), ("f2003", "f08", 4, {}), ("f2008", "f08", 3, {})]
+          ("f2003", "f08", 16, {}), ("f2003", "f08", 1, {}), ("f2008", "f08", 16, {}), ("f2003", "f08", 8, {}),
+          ("f2003", "f08", 0, {}), ("f2003", "f08", 5, {}), ("f2008", "f08", 3, {}), ("f2003", "f08", 6, {}),
+          ("f2003", "f08", 17, {})]
 
 
 def n_enum(maxlen):
